@@ -331,6 +331,12 @@ def verify_group(g, gen, scratch, extra_defs=(), tag=""):
     if any("ignoring forall" in x or "ignoring exists" in x for x in msgs):
         res.update(status="undecided", detail="quantifier ignored by back end")
         return res
+    nobody = sorted({m.group(1) for x in msgs for m in [re.search(r"no body for function '?([A-Za-z_0-9]+)", x)] if m})
+    nobody = [f for f in nobody if not f.startswith("nondet_") and not f.startswith("__")]
+    if nobody and not g.get("dfcc", True):
+        # without DFCC an undefined callee silently becomes "returns anything, changes nothing"
+        res.update(status="undecided", detail="reachable functions without body (non-DFCC mode): " + ", ".join(nobody[:12]))
+        return res
     if results is None:
         res.update(status="undecided",
                    detail="cbmc gave no result (rc=%s): %s" % (r["rc"], (r["err"][-1500:] + " | ".join(msgs[-6:]))))
